@@ -662,6 +662,7 @@ func checkC15(res *Result) {
 	}
 	checkC15Algebra(res, pkgs)
 	checkC15LoopState(res, pkgs)
+	checkAllExtendsAreIn(res, pkgs)
 	for i, rv := range reviewedRanges {
 		if !reviewedUsed[i] {
 			fmt.Printf("NOTE: reviewed map-range entry no longer matches a site: %s over %s\n", rv.fn, rv.expr)
@@ -792,6 +793,45 @@ func checkC15Algebra(res *Result, pkgs []*packages.Package) {
 			return true
 		})
 		res.check(ok, "C15-R5", "TypeGenerator."+fn, relPos(gp.Fset, fd.Pos()), fn+" visits every element of "+over+"() and recurses on it (transitive closure)", "no recursion on the loop variable of a range over "+over+"()")
+		// … every element: the loop over Extends()/ExtendedBy() is not left early
+		early := ""
+		ast.Inspect(fd.Body, func(n ast.Node) bool {
+			rs, isR := n.(*ast.RangeStmt)
+			if !isR {
+				return true
+			}
+			c, isC := rs.X.(*ast.CallExpr)
+			if !isC {
+				return true
+			}
+			if sel, isS := c.Fun.(*ast.SelectorExpr); !isS || sel.Sel.Name != over {
+				return true
+			}
+			var walk func(m ast.Node, inner bool)
+			walk = func(m ast.Node, inner bool) {
+				ast.Inspect(m, func(q ast.Node) bool {
+					switch x := q.(type) {
+					case *ast.FuncLit:
+						return false
+					case *ast.ForStmt, *ast.RangeStmt, *ast.SwitchStmt, *ast.TypeSwitchStmt, *ast.SelectStmt:
+						if q != m {
+							walk(q, true)
+							return false
+						}
+					case *ast.BranchStmt:
+						if x.Tok == token.BREAK && !inner {
+							early = "break at " + relPos(gp.Fset, x.Pos())
+						}
+					case *ast.ReturnStmt:
+						early = "return at " + relPos(gp.Fset, x.Pos())
+					}
+					return true
+				})
+			}
+			walk(rs.Body, false)
+			return true
+		})
+		res.check(early == "", "C15-R5", "TypeGenerator."+fn, relPos(gp.Fset, fd.Pos()), "the loop over "+over+"() in "+fn+" cannot be left early (every parent / child is visited)", early+": the remaining elements are not visited, the closure is incomplete")
 	}
 	closure("getAllParentExtends", "Extends")
 	closure("getAllChildrenExtendedBy", "ExtendedBy")
@@ -1046,4 +1086,56 @@ func appendsFollowedBySortingCallee(rs *ast.RangeStmt) bool {
 		return true
 	})
 	return okC && n > 0
+}
+
+
+// C15-R7 — Converter.allExtendsAreIn answers "every parent of this type has been converted".
+// For a parent of the vocabulary being converted the answer can only be given after all parents
+// were looked at: inside the loop over t.Extends, outside the branch for parents of another
+// vocabulary, nothing returns anything but false.
+func checkAllExtendsAreIn(res *Result, pkgs []*packages.Package) {
+	const rule = "C15-R7"
+	res.Rule(rule, "Converter.allExtendsAreIn: for parents of the vocabulary being converted 'all converted' is answered only after the loop over the parents has ended (inside the loop their branch can only answer false)")
+	for _, p := range pkgs {
+		if !strings.HasSuffix(p.PkgPath, "/astool/convert") {
+			continue
+		}
+		for _, f := range p.Syntax {
+			for _, d := range f.Decls {
+				fd, ok := d.(*ast.FuncDecl)
+				if !ok || fd.Body == nil || fd.Name.Name != "allExtendsAreIn" {
+					continue
+				}
+				found := false
+				ast.Inspect(fd.Body, func(n ast.Node) bool {
+					rs, ok := n.(*ast.RangeStmt)
+					if !ok || !strings.HasSuffix(types.ExprString(rs.X), ".Extends") {
+						return true
+					}
+					found = true
+					// the branch for parents of another vocabulary: if len(e.Vocab) != 0 { … }
+					var foreign *ast.BlockStmt
+					ast.Inspect(rs.Body, func(m ast.Node) bool {
+						if ifs, ok := m.(*ast.IfStmt); ok && foreign == nil && strings.Contains(types.ExprString(ifs.Cond), ".Vocab") {
+							foreign = ifs.Body
+						}
+						return true
+					})
+					ast.Inspect(rs.Body, func(m ast.Node) bool {
+						r, ok := m.(*ast.ReturnStmt)
+						if !ok || len(r.Results) != 1 {
+							return true
+						}
+						if foreign != nil && r.Pos() >= foreign.Pos() && r.End() <= foreign.End() {
+							return true
+						}
+						res.check(isIdentNamed(r.Results[0], "false"), rule, "Converter.allExtendsAreIn", relPos(p.Fset, r.Pos()), "inside the loop a parent of this vocabulary can only make the answer false", "returns "+types.ExprString(r.Results[0])+" after looking at one parent: a type with several parents is converted before all of them are")
+						return true
+					})
+					return false
+				})
+				res.check(found, rule, "Converter.allExtendsAreIn", relPos(p.Fset, fd.Pos()), "allExtendsAreIn loops over the type's parents", "no range over t.Extends")
+			}
+		}
+	}
 }
